@@ -18,7 +18,7 @@ codegen.py  `_GenerateRenderMethod.__init__`      name = "render_%s" % node.func
             `write_inline_def`                    the decorator is written with buffered=False, inline=True
 parsetree.py `BlockTag.funcname`                  self.name or "__M_anon_%d" % (self.lineno,)
 cache.py    `invalidate_body/def/closure`         (key expression, __M_defname expression)
-            `_get_cache_kw`                       kw.pop("__M_defname", None), setdefault("context", ...)
+            `_get_cache_kw`                       kw.pop("__M_defname", None), setdefault("context", ...) on a copy
             `_ctx_get_or_create`                  `if not self.template.cache_enabled: return creation_function()`
 template.py `Template.__init__`                   module_id = re.sub(r"\\W", "_", uri)
 ext/beaker_cache.py `BeakerCacheImpl`             the names it defines (does it override `CacheImpl.set`?)
@@ -28,7 +28,7 @@ from __future__ import annotations
 import ast
 import re
 
-from regen import group, RegenError, parse, find_class, find_func, const, lean_str, HEADER
+from regen import group, RegenError, parse, find_class, find_func, const, lean_str, lean_string, HEADER
 
 
 def _fmt_prefix(node, what):
@@ -200,6 +200,13 @@ def gen(repo) -> str:
             ctx_kw = const(n.args[0], str, "_get_cache_kw setdefault")
     if pop_kw is None or ctx_kw is None:
         raise RegenError("%s: _get_cache_kw: pop / setdefault not found" % rel_c)
+    # the context is added to a *copy*:  if context and self.impl.pass_context: tmpl_kw = tmpl_kw.copy(); tmpl_kw.setdefault(..)
+    ctx_if = [n for n in gck.body if isinstance(n, ast.If) and "pass_context" in ast.unparse(n.test)]
+    if len(ctx_if) != 1:
+        raise RegenError("%s: _get_cache_kw: no single `if context and self.impl.pass_context` block" % rel_c)
+    stmts = [ast.unparse(x) for x in ctx_if[0].body]
+    ctx_copies = (len(stmts) == 2 and stmts[0] == "tmpl_kw = tmpl_kw.copy()" and stmts[1].startswith("tmpl_kw.setdefault("))
+    ctx_guard = ast.unparse(ctx_if[0].test)
     goc = find_func(cc.body, "_ctx_get_or_create", rel_c)
     first = goc.body[1] if goc.body and isinstance(goc.body[0], ast.Expr) and isinstance(goc.body[0].value, ast.Constant) \
         else (goc.body[0] if goc.body else None)
@@ -292,6 +299,9 @@ def gen(repo) -> str:
          "def popDefnameKw : List Char := %s" % lean_str(pop_kw),
          "/-- `tmpl_kw.setdefault(%r, context)` -/" % ctx_kw,
          "def contextKw : List Char := %s" % lean_str(ctx_kw),
+         "/-- `_get_cache_kw`: `if %s:` copies `tmpl_kw` before `setdefault` (the memo entry is never touched) -/" % ctx_guard,
+         "def contextAddedToCopy : Bool := %s" % b(ctx_copies),
+         "def contextGuard : String := %s" % lean_string(ctx_guard),
          "/-- `_ctx_get_or_create` starts with `if not self.template.cache_enabled: return creation_function()` -/",
          "def disabledBypassesBackend : Bool := %s" % b(bypass),
          "/-- `Cache.__init__`: `self.id = %s` -/" % id_src,
